@@ -129,3 +129,65 @@ def chains(depth):
 
 def chain_levels(idx):
     return [list(CONSTRUCTS[i]) for i in idx]
+
+
+# ---------------------------------------------------------------------------------------------------------------
+# Branch-ending family: an if-chain inside a loop where EVERY branch independently ends in nothing / break /
+# continue / return (so that e.g. all branches before the else leave the chain by a jump of their own).
+
+ENDINGS = ('none', 'break', 'continue', 'return')
+BE_LOOPS = ('while', 'for', 'forc')
+BE_SHAPES = (('if', 1, False), ('ifelse', 1, True), ('ifelif', 2, False), ('ifelifelse', 2, True))
+BE_SCOPES = ('global', 'func')
+BE_WRAPS = ('plain', 'in-if', 'after-sibling-loop')
+
+
+def branch_end_specs():
+    out = []
+    for loop in BE_LOOPS:
+        for shape, nconds, has_else in BE_SHAPES:
+            nb = nconds + (1 if has_else else 0)
+            for ends in itertools.product(range(len(ENDINGS)), repeat=nb):
+                for scope in BE_SCOPES:
+                    for wrap in BE_WRAPS:
+                        out.append({'loop': loop, 'shape': shape, 'ends': list(ends), 'scope': scope, 'wrap': wrap})
+    return out
+
+
+def build_branch_end(spec):
+    ctr = itertools.count(1)
+
+    def log():
+        return ('expr', ('call', 'systemLog', [('str', f'k{next(ctr)}')]))
+
+    def ending(e):
+        kind = ENDINGS[e]
+        if kind == 'break':
+            return [('break',)]
+        if kind == 'continue':
+            return [('continue',)]
+        if kind == 'return':
+            return [('return', ('str', 'ret'))]
+        return []
+
+    shape, nconds, has_else = next(x for x in BE_SHAPES if x[0] == spec['shape'])
+    ends = spec['ends']
+    pairs = [(CC, [log()] + ending(ends[j])) for j in range(nconds)]
+    else_body = ([log()] + ending(ends[nconds])) if has_else else None
+    chain = ('if', pairs, else_body)
+    inner = [log(), chain, log()]
+    if spec['wrap'] == 'in-if':
+        inner = [log(), ('if', [(('not', CC), inner)], [log()]), log()]
+    if spec['loop'] == 'while':
+        loop = [('while', CC, inner)]
+    elif spec['loop'] == 'for':
+        loop = [('for', 'v', 'i', ('call', 'pk', []), inner)]
+    else:
+        loop = [('assign', 'n0', ('num', 0)), ('while', ('bin', '<', ('var', 'n0'), ('num', 3)), [('assign', 'n0', ('bin', '+', ('var', 'n0'), ('num', 1)))] + inner)]
+    body = [log()]
+    if spec['wrap'] == 'after-sibling-loop':
+        body += [('for', 'w', None, ('call', 'arrayNew', [('num', 1)]), [('if', [(CC, [('continue',)])], None), log()])]
+    body += loop + [log()]
+    if spec['scope'] == 'func':
+        return [('func', 'ff', [], False, body), ('assign', 'rr', ('call', 'ff', [])), log()]
+    return body
